@@ -287,4 +287,40 @@ def flowKeygen (S : Shape) (checked : Bool) : List ClapTape → Option Outcome
     | .ok true => some .ok
     | .ok false => if checked then flowKeygen S checked ts else some (.bad "keygen: curve/basis used after evaluation failed")
 
+/-! ## bounded work: number of leaf-routine calls on every path (shape "all checked")
+
+Loop budgets of the control skeleton, as they appear in the C text (regenerated as `SqiGen.SignFlow.*`, tied in
+SqiProps/C04Code.lean): find_uv is tried `uv` times per translation, represent_integer_non_diag `nd` times per
+fixed_degree_isogeny, the candidate loop of sample_response runs at most `samp` times.  A tape value larger than the
+budget means "would have failed more often": the code stops at the budget. -/
+
+structure Budget where
+  uv : Nat
+  nd : Nat
+  samp : Nat
+deriving Repr, DecidableEq
+
+/-- leaf calls of one ideal → isogeny translation: find_uv calls, then (if one succeeded) fixed_degree_isogeny for u
+and (if that succeeded) for v; each fixed_degree_isogeny makes at most `nd` represent_integer_non_diag calls -/
+def clapCalls (B : Budget) (t : ClapTape) : Nat :=
+  min (t.uvFails + 1) B.uv +
+    (if B.uv ≤ t.uvFails then 0 else (1 + B.nd) + (if t.fuFail then 0 else (1 + B.nd)))
+
+/-- dim-2 `protocols_sign`: commit translation, candidate loop (`tries` draws needed, capped by the budget), one
+represent_integer for the auxiliary ideal, auxiliary translation, one final (2,2)-chain + small chain + hint searches
+counted as 1 -/
+def callsDim2 (B : Budget) (t : Dim2Tape) (tries : Nat) : Nat :=
+  clapCalls B t.com + min tries B.samp + 1 + clapCalls B t.aux + 1
+
+def callsHeur (B : Budget) (t : HeurTape) (tries : Nat) : Nat :=
+  (1 + B.nd) + min tries B.samp + 1 + clapCalls B t.aux + 1
+
+def callsHd (B : Budget) (tries : Nat) : Nat := (1 + B.nd) + min tries B.samp + 1
+
+/-- key generation with the retry loop: translations attempted until the first success (unbounded loop in the C code:
+the count is bounded only by the position of the first successful attempt on the tape) -/
+def keygenAttempts : List ClapTape → Nat
+  | [] => 0
+  | t :: ts => if decide (t.uvFails < 3) && !t.fuFail && !t.fvFail then 1 else 1 + keygenAttempts ts
+
 end SqiModel.SignBook
